@@ -11,7 +11,7 @@
      RevEnd      (P = N)         the root child sits at len, every other at len - 1; Reverse heap
                                  once the root is moved back *)
 From Coq Require Import NArith ZArith Arith List Bool Lia Permutation.
-From Blue Require Import Cursor.Iface Cursor.Ref Cursor.Concat Cursor.Merging Cursor.Spec
+From Blue Require Import Cursor.Iface Cursor.Ref Cursor.Concat Cursor.Merging Cursor.Spec Cursor.Fallible
   Cursor.Proofs_Order Cursor.Proofs_Ref Cursor.Proofs_Concat Cursor.Proofs_Heap.
 Import ListNotations.
 Local Open Scope Z_scope.
@@ -695,6 +695,90 @@ Proof.
     + now apply prev_R.
     + now apply next_R.
 Qed.
+
+(* the absolute calls only need every child to be a reference cursor AFTER its own absolute call
+   (recovery after an Err: Proofs_Recover.v) *)
+Definition kids_rec (kids : list S) (ds : list slot) : Prop :=
+  Forall2 (fun s (d : slot) => forall o, is_abs o = true ->
+             refines c (step c o s) (fst d) (step (ref (fst d)) o 0)) kids ds.
+
+Lemma abs_all o kids ds : is_abs o = true -> kids_rec kids ds ->
+  slots_ok (map (step c o) kids) (map (step_slot o) ds).
+Proof.
+  intros Ho H. induction H as [|s d kids ds Hs H IH]; cbn [map]; constructor; [|exact IH].
+  cbn [step_slot fst snd]. replace (step (ref (fst d)) o (snd d)) with (step (ref (fst d)) o 0); [now apply Hs|].
+  destruct o; try discriminate; reflexivity.
+Qed.
+
+Lemma first_R_rec st ds : kids_rec (m_kids st) ds -> static ds -> merging_R (m_first c st) (-1).
+Proof.
+  intros Hrec Hst. unfold m_first.
+  set (kids1 := map (fun s => c_next c (c_first c s)) (m_kids st)).
+  assert (slots_ok kids1 (map (step_slot ONext) (map (step_slot OFirst) ds))) as Hok1.
+  { unfold kids1. rewrite <- (map_map (c_first c) (c_next c)).
+    apply (slots_step_all ONext). exact (abs_all OFirst _ _ eq_refl Hrec). }
+  pose proof (static_step ONext _ (static_step OFirst _ Hst)) as Hst1.
+  assert (fwd_pos 0 (map (step_slot ONext) (map (step_slot OFirst) ds))) as Hpos1.
+  { unfold fwd_pos. rewrite Forall_forall. intros d' Hd'. rewrite map_map in Hd'. apply in_map_iff in Hd'.
+    destruct Hd' as [d [<- Hd]]. cbn. rewrite (cnt_0 _ d Hst Hd). unfold ref_next. pose proof (len_nonneg (fst d)).
+    destruct (Z.leb_spec (len (fst d)) (-1 + 1)); lia. }
+  destruct (perm_transport _ _ _ _ (heapify_perm' true kids1) Hok1 Hst1 Hpos1) as [ds2 [Hok2 [Hst2 Hpos2]]].
+  pose proof (heapify_is_heap true kids1) as Hheap. set (kids2 := heapify (is_less c true) kids1) in *.
+  destruct Hok2 as [|s0 d0 kids' ds' H0 Hok'].
+  - eapply (MFwdStart _ _ []); cbn; auto. constructor.
+  - unfold on_root. inversion Hpos2 as [|? ? Hp0 Hp']; subst.
+    eapply (MFwdStart _ _ ((fst d0, -1) :: ds')); cbn [m_fwd m_kids]; auto.
+    + apply (slots_step_root OFirst s0 kids' d0 ds'). constructor; assumption.
+    + eapply static_root; [|exact Hst2]. reflexivity.
+    + unfold on_root. rewrite upd_upd. eapply heap_from_kv_ext; [|exact Hheap]. apply kv_ext_root.
+      intros s r E. injection E as <- <-.
+      rewrite (refines_kv c _ _ _ (refines_next c _ _ _ (refines_first c _ _ _ H0))), (refines_kv c _ _ _ H0).
+      rewrite Hp0. rewrite (cnt_0 _ d0 Hst2 (or_introl eq_refl)). unfold ref_next. pose proof (len_nonneg (fst d0)).
+      destruct (Z.leb_spec (len (fst d0)) (-1 + 1)); [|reflexivity]. rewrite !ent_none by lia. reflexivity.
+Qed.
+
+Lemma last_R_rec st ds : kids_rec (m_kids st) ds -> static ds -> merging_R (m_last c st) N.
+Proof.
+  intros Hrec Hst. unfold m_last.
+  set (kids1 := map (fun s => c_prev c (c_last c s)) (m_kids st)).
+  assert (slots_ok kids1 (map (step_slot OPrev) (map (step_slot OLast) ds))) as Hok1.
+  { unfold kids1. rewrite <- (map_map (c_last c) (c_prev c)).
+    apply (slots_step_all OPrev). exact (abs_all OLast _ _ eq_refl Hrec). }
+  pose proof (static_step OPrev _ (static_step OLast _ Hst)) as Hst1.
+  assert (rev_pos (N - 1) (map (step_slot OPrev) (map (step_slot OLast) ds))) as Hpos1.
+  { unfold rev_pos. rewrite Forall_forall. intros d' Hd'. rewrite map_map in Hd'. apply in_map_iff in Hd'.
+    destruct Hd' as [d [<- Hd]]. cbn. replace (N - 1 + 1) with N by lia. rewrite cnt_N. unfold ref_prev.
+    pose proof (len_nonneg (fst d)). destruct (Z.ltb_spec (len (fst d) - 1) 0); lia. }
+  destruct (perm_transport _ _ _ _ (heapify_perm' false kids1) Hok1 Hst1 Hpos1) as [ds2 [Hok2 [Hst2 Hpos2]]].
+  pose proof (heapify_is_heap false kids1) as Hheap. set (kids2 := heapify (is_less c false) kids1) in *.
+  destruct Hok2 as [|s0 d0 kids' ds' H0 Hok'].
+  - eapply (MRevEnd _ _ []); cbn; auto. constructor.
+  - unfold on_root. inversion Hpos2 as [|? ? Hp0 Hp']; subst.
+    eapply (MRevEnd _ _ ((fst d0, len (fst d0)) :: ds')); cbn [m_fwd m_kids]; auto.
+    + apply (slots_step_root OLast s0 kids' d0 ds'). constructor; assumption.
+    + eapply static_root; [|exact Hst2]. reflexivity.
+    + unfold on_root. rewrite upd_upd. eapply heap_from_kv_ext; [|exact Hheap]. apply kv_ext_root.
+      intros s r E. injection E as <- <-.
+      rewrite (refines_kv c _ _ _ (refines_prev c _ _ _ (refines_last c _ _ _ H0))), (refines_kv c _ _ _ H0).
+      rewrite Hp0. replace (N - 1 + 1) with N by lia. rewrite cnt_N. unfold ref_prev. pose proof (len_nonneg (fst d0)).
+      destruct (Z.ltb_spec (len (fst d0) - 1) 0); [|reflexivity]. rewrite !ent_none by lia. reflexivity.
+Qed.
+
+Lemma seek_R_rec k st ds : kids_rec (m_kids st) ds -> static ds -> merging_R (m_seek c k st) (count (below k) L).
+Proof.
+  intros Hrec Hst. unfold m_seek.
+  pose proof (abs_all (OSeek k) _ _ eq_refl Hrec) as Hok1. pose proof (static_step (OSeek k) _ Hst) as Hst1.
+  change (map (step c (OSeek k)) (m_kids st)) with (map (c_seek c k) (m_kids st)) in Hok1.
+  eapply finish_fwd; [apply heapify_perm'|exact Hok1|exact Hst1| |apply heapify_is_heap|apply count_range].
+  unfold fwd_pos. rewrite Forall_forall. intros d' Hd'. apply in_map_iff in Hd'. destruct Hd' as [d [<- Hd]].
+  cbn. unfold cnt. apply count_ext. intros e He. destruct (static_In _ _ _ Hst Hd He) as [i Hi].
+  pose proof (count_prefix _ L HL (below_downclosed k) i e Hi) as H1.
+  pose proof (cut_idx (count (below k) L) i e (count_range _ _) Hi) as H2.
+  destruct (below k e), (cut (count (below k) L) e); auto.
+  - destruct H1 as [H1 _]. destruct H2 as [_ H2]. specialize (H2 (H1 eq_refl)). discriminate.
+  - destruct H1 as [_ H1]. destruct H2 as [H2 _]. specialize (H1 (H2 eq_refl)). discriminate.
+Qed.
+
 End MergeProof.
 
 (* the compositional statement: children that behave as reference cursors over sorted tables
